@@ -627,6 +627,19 @@ def rule_shared_state(chk, prog, rule='C01.7-cached-arrays-never-updated-in-plac
     tree = ast.parse(open(m.path, encoding='utf-8').read())
     consts = {t.id for st in tree.body if isinstance(st, ast.Assign) for t in st.targets if isinstance(t, ast.Name)}
     hits = alias.inplace_updates(tree, consts, state_attrs, memoised)
+    # hand-rolled memo tables: a store C[key] = value into a module-level dict is legitimate exactly when the key determines the value
+    from sa import memo
+    memos = {ms.lineno: ms for ms in memo.scan(tree)}
+    for fn, line, text, shared in list(hits):
+      ms = memos.get(line)
+      if ms is None:
+        continue
+      hits.remove((fn, line, text, shared))
+      if ms.uncovered:
+        chk.violation(rule, f'{short}.{fn}: memo table {ms.cache}', f'the cached value is computed from {", ".join(ms.uncovered)} but the key only holds {", ".join(ms.key_paths)}: a second configuration that agrees on the key '
+                      'silently receives the first one\'s table', (m.relpath, line), 'key covers every parameter path the value is computed from', f'uncovered: {ms.uncovered}')
+      else:
+        chk.ok(rule, f'{short}.{fn}: memo table {ms.cache} is keyed by everything its value is computed from', ', '.join(ms.key_paths), (m.relpath, line))
     for fn, line, text, shared in hits:
       chk.violation(rule, f'{short}.{fn}: {text}', f'in-place update of an object that may alias shared state ({shared}): cached_property values, dataclass fields and module constants '
                     'are reused by every later call (e.g. quadrature weights scaled twice on the second call)', (m.relpath, line), 'update a copy (w = w * c)', text)
@@ -638,6 +651,12 @@ def rule_shared_state(chk, prog, rule='C01.7-cached-arrays-never-updated-in-plac
   if sorted(f for f, _, _, _ in found) != ['integrate', 'top']:
     raise AnalysisError(f'positive fixture for {rule} no longer matches ({found}): the scan is blind or over-eager')
   chk.ok(rule, 'positive fixture fixtures/alias_fixture: the two in-place updates of a cached array are reported, the update of a fresh copy is not', f'{len(found)} report(s)')
+  from sa import memo as _memo
+  fm = os.path.join(os.path.dirname(os.path.dirname(os.path.abspath(__file__))), 'fixtures', 'memo_fixture', 'dinosaur', 'fixture.py')
+  gotm = {ms.func: ms.uncovered for ms in _memo.scan(ast.parse(open(fm).read()))}
+  if gotm != {'incomplete': ['coords.vertical.layer_thickness'], 'complete': []}:
+    raise AnalysisError(f'positive fixture for memo tables no longer matches ({gotm}): the scan is blind or over-eager')
+  chk.ok(rule, 'positive fixture fixtures/memo_fixture: the table keyed by the level count only is reported, the one keyed by the level object is not', str(gotm))
   chk.at_least(rule, 10)
 
 
